@@ -3,7 +3,7 @@
    Models: Par/ParDefs.v (parallel.h), Par/Sched.v (legal TBB behaviours),
    Par/UnionFind.v, Par/HashTable.v (lock-free containers). *)
 From Coq Require Import List Arith Bool ZArith Permutation Sorted.
-From MV Require Import Par.Sched Par.ParDefs Par.SortModel Par.ScanModel Par.InstModel Par.ReduceSites Gen.ReduceSites Par.Containers.
+From MV Require Import Par.Sched Par.ParDefs Par.SortModel Par.ScanModel Par.InstModel Par.ReduceSites Gen.ReduceSites Par.Containers Par.RadixModel.
 Import ListNotations.
 
 (* ---- stable_sort(Par, first, last, comp)  [mergeSort / mergeSortRec / mergeRec]
@@ -36,6 +36,37 @@ Example stable_sort_hyps_satisfiable :
   merge_sort (fun a b : nat * nat => Nat.ltb (fst a) (fst b)) 2 [(3,0);(1,1);(3,2);(1,3);(2,4)]
   = Some [(1,1);(1,3);(2,4);(3,0);(3,2)].
 Proof. split; [intros a b H; apply Nat.ltb_lt in H; apply Nat.ltb_ge; apply Nat.lt_le_incl; exact H | reflexivity]. Qed.
+
+(* ---- stable_sort(Par, first, last) on unsigned integral keys: the radix path
+   (details::radix_sort: LSB_radix_sort per block = is_sorted shortcut, one
+   stable counting pass per byte unless the histogram says the byte is constant,
+   buffer parity; SortedRange blocks joined by mergeRec or plain concatenation)
+   over keys of nbytes bytes: for every threshold >= 2, every input and every
+   legal parallel_reduce schedule (any split tree, lazily or eagerly split
+   bodies) the result is the stable sort of the input.  (Since 1f3be2f4 signed
+   types take the merge sort path: stable_sort_spec.) *)
+Theorem radix_sort_spec :
+  forall (thr nbytes : nat) (xs : list Z) (grain : nat) (t : rtree),
+    2 <= thr ->
+    (forall x, In x xs -> (0 <= x < 256 ^ Z.of_nat nbytes)%Z) ->
+    legal_reduce grain (length xs) t = true ->
+    radix_sort thr nbytes xs t = Some (isort Z.ltb xs).
+Proof. intros thr nbytes xs grain t Ht Hr HL. exact (radix_sort_correct thr nbytes xs grain t Ht Hr HL). Qed.
+Print Assumptions radix_sort_spec.
+
+Example radix_hyps_satisfiable :
+  legal_reduce 1 6 (RNode 2 true RLeaf (RNode 4 false RLeaf RLeaf)) = true /\
+  radix_sort 2 2 [513; 2; 70; 258; 2; 1]%Z (RNode 2 true RLeaf (RNode 4 false RLeaf RLeaf)) = Some [1; 2; 2; 70; 258; 513]%Z.
+Proof. split; reflexivity. Qed.
+
+(* one counting pass is a stable partition by its byte and advances the LSD invariant *)
+Theorem radix_pass_spec :
+  forall (k : nat) (l : list Z),
+    Permutation l (radix_pass k l) /\
+    (StronglySorted (fun x y => (x mod 256 ^ Z.of_nat k <= y mod 256 ^ Z.of_nat k)%Z) l ->
+     StronglySorted (fun x y => (x mod 256 ^ Z.of_nat (S k) <= y mod 256 ^ Z.of_nat (S k))%Z) (radix_pass k l)).
+Proof. intros k l. exact (conj (radix_pass_perm k l) (radix_pass_sorted k l)). Qed.
+Print Assumptions radix_pass_spec.
 
 (* the parallel merge alone: details::mergeRec on two sorted runs = std::merge *)
 Theorem merge_rec_spec :
@@ -235,20 +266,70 @@ Example for_each_hyps_satisfiable :
   = [40; 30; 20; 10; 0]%Z.
 Proof. split; reflexivity. Qed.
 
-(* ---- DisjointSets (src/disjoint_sets.h), PARTIAL.
-   Every successful compare-exchange of unite/findImpl, by any thread at any
-   time (link under the (rank, smaller id) rule, path halving, rank bump),
-   preserves: each non-root's parent is strictly greater in the order
-   (rank, then smaller id) — hence parent chains cannot cycle, for every
-   interleaving of any number of threads.  Missing (exercised by real threads
-   in harness/c13_uf.cpp only): the side conditions of uf_step from stale
-   thread-local reads (rank monotonicity history), the final partition =
-   equivalence closure, and HashTableD::Insert. *)
-Theorem uf_partition_partial :
+(* ---- DisjointSets (src/disjoint_sets.h)
+   (1) ANY interleaving, any number of threads: every successful
+   compare-exchange of unite/findImpl (link under the (rank, smaller id) rule,
+   path halving, rank bump) preserves "each non-root's parent is strictly
+   greater in the order (rank, then smaller id)" — parent chains cannot cycle. *)
+Theorem uf_cas_step_preserves_order :
   forall st st' : uf_state, ord_inv st -> uf_step st st' -> ord_inv st'.
 Proof. exact uf_step_preserves_order. Qed.
-Print Assumptions uf_partition_partial.
+Print Assumptions uf_cas_step_preserves_order.
 
 Example uf_hyps_satisfiable : ord_inv (map (fun i => (0, i)) (seq 0 5)).
 Proof. exact (ord_inv_init 5). Qed.
 
+(* (2) PARTIAL w.r.t. the concurrent statement: for the code as ONE thread
+   executes it (ported word for word: findImpl with path halving, unite with
+   union by (rank, smaller id) and rank bump; compared (rank,parent)-word for
+   word with the implementation), whenever the run returns, the order invariant
+   holds and two elements have the same root exactly when they are related by
+   the equivalence closure of the united pairs.  Missing: the same conclusion
+   for concurrent runs (needs linearisation of the pending unions; the side
+   conditions of uf_step from stale thread-local reads), and that fuel n+1
+   always suffices (termination from ord_inv); concurrent runs are compared
+   with this model partition-for-partition by harness/c13_uf.cpp. *)
+Theorem uf_partition_partial :
+  forall (n : nat) (pairs : list (nat * nat)) (st : uf_state),
+    Forall (fun pr => fst pr < n /\ snd pr < n) pairs ->
+    uf_run_seq n pairs = Some st ->
+    length st = n /\ ord_inv st /\
+    forall a b, a < n -> b < n -> (same st a b <-> uf_equiv n pairs a b).
+Proof. exact uf_seq_partition. Qed.
+Print Assumptions uf_partition_partial.
+
+Example uf_partition_hyps_satisfiable :
+  uf_run_seq 6 [(0,1); (1,0); (2,3); (3,2); (1,2); (5,5)] = Some [(2,0); (0,0); (1,0); (0,2); (0,4); (0,5)].
+Proof. reflexivity. Qed.
+
+(* ---- HashTableD::Insert (src/hashtable.h), keys only.  PARTIAL: safety for ANY
+   interleaving — a claim (the strong CAS kOpen -> key by a thread that saw the
+   earlier probe slots taken by other keys) preserves the open-addressing
+   invariant; under it a key occupies at most one slot and operator[] finds it
+   at that slot; and one thread's Insert (ported) either claims or finds the key.
+   Missing: the value array, the Full()/used_ counter race, progress (an open
+   slot is reached) for concurrent runs. *)
+Theorem hash_insert_partial :
+  forall (m : nat) (h : nat -> nat) (step : nat),
+    (forall t t', ht_inv m h step t -> ht_claim m h step t t' -> ht_inv m h step t') /\
+    (forall t s1 s2 K, ht_inv m h step t -> s1 < m -> s2 < m ->
+        slot t s1 = Some K -> slot t s2 = Some K -> s1 = s2) /\
+    (forall t s K, ht_inv m h step t -> s < m -> slot t s = Some K ->
+        exists fuel, ht_find m h step fuel t K 0 = Some s) /\
+    (forall fuel t K t' c, ht_inv m h step t -> 0 < m ->
+        ht_insert_loop m h step fuel t K 0 = Some (t', c) ->
+        ht_inv m h step t' /\ exists s, s < m /\ slot t' s = Some K).
+Proof.
+  intros m h step.
+  exact (conj (ht_claim_preserves m h step)
+        (conj (ht_key_unique m h step)
+        (conj (ht_find_present m h step)
+              (fun fuel t K t' c Hi Hm Hr =>
+                 ht_insert_loop_spec m h step fuel t K 0 t' c Hi Hm (fun i' (Hlt : i' < 0) => match Nat.nlt_0_r i' Hlt with end) Hr)))).
+Qed.
+Print Assumptions hash_insert_partial.
+
+Example hash_hyps_satisfiable :
+  ht_run 8 (fun k => nth k [4; 7; 4; 4] 0) 1 9 (repeat None 8) 0 [0; 1; 0; 2; 3]
+  = Some ([None; None; None; None; Some 0; Some 2; Some 3; Some 1], 4).
+Proof. reflexivity. Qed.
